@@ -8,13 +8,7 @@ Open Scope Z_scope.
 Ltac Zify.zify_post_hook ::= Z.to_euclidean_division_equations.
 
 (* number of dates of year y that fall in months 1 .. k-1 *)
-Fixpoint msum_n (c : cal) (y : Z) (k : nat) : Z :=
-  match k with O => 0 | S k' => msum_n c y k' + month_count c y (Z.of_nat k') end.
 (* msum c y m = dates in months before m (m = 1..13) *)
-Definition msum (c : cal) (y m : Z) : Z := msum_n c y (Z.to_nat m) - month_count c y 0.
-
-Definition clamp (x lo hi : Z) : Z := Z.max lo (Z.min hi x).
-Definition cum13 (l : bool) (m : Z) : Z := if m =? 13 then ylen l else cum l m.
 Lemma cum13_succ l m : 1 <= m <= 12 -> cum13 l (m + 1) = cum13 l m + mlen l m.
 Proof.
   intros H. unfold cum13. destruct (Z.eqb_spec m 12) as [->|N].
@@ -27,18 +21,6 @@ Lemma cum13_cum l m : 1 <= m <= 12 -> cum13 l m = cum l m.
 Proof. intros. unfold cum13. replace (m =? 13) with false by lia. reflexivity. Qed.
 
 (* closed forms of the partial sums of old-style and new-style days *)
-Definition osum (c : cal) (y m : Z) : Z :=
-  match c with
-  | CJ => cum13 (jleap y) m
-  | CG => 0
-  | CR r => clamp (r - J0 y) 0 (cum13 (jleap y) m)
-  end.
-Definition nsum (c : cal) (y m : Z) : Z :=
-  match c with
-  | CJ => 0
-  | CG => cum13 (gleap y) m
-  | CR r => clamp (G0 y + cum13 (gleap y) m - r) 0 (cum13 (gleap y) m)
-  end.
 
 Lemma old_step c y m : 1 <= m <= 12 -> osum c y (m + 1) = osum c y m + old_mdays c y m.
 Proof.
